@@ -1354,6 +1354,9 @@ def check(ctx):
     rep.rule('D4', 'next_taxon, evaluated on the finite lineage domain: nearest threshold-bearing taxon below the first one whose threshold covers the distance; topmost threshold-bearing one when none does')
     rep.rule('D5', 'reportable_taxon, evaluated on chains with report flags True/False/None: None passthrough, first ancestor-or-self with report')
     rep.rule('D6', 'get_result_item: classify of this row; report taxon from predicted taxon; strict only from params')
+    rep.rule('D8', 'gambit query: non-strict unless --strict is given; the parameter object built from the command line is what the query functions get')
+    from ..clirules import check_query_cli_params
+    check_query_cli_params(rep, ctx.model, 'D8')
     rep.trusted += ['np.argmin returns the first minimum', 'model / attrs objects (Taxon, GenomeMatch) are truthy and compare by identity']
     rep.assumptions += ['Composition of the clauses into the full statement for every forest is a hand argument (DESIGN.md 5/C03). Monotonicity follows from D1 being downward-closed in d.',
                         'D1/D2/D4/D5 are decided on every lineage up to depth 5 (4 for report flags) with every absent/below/equal/above/zero threshold pattern; the evaluated vocabulary has no arithmetic '
@@ -1401,6 +1404,11 @@ VARIANTS = [
     V('matching taxon chosen as the tightest matching threshold (seeded C03e)', 'B', _C, _MT_LOOP, "\twithin = [t for t in taxon.ancestors(incself=True) if t.distance_threshold is not None and d <= t.distance_threshold]\n\treturn min(within, key=lambda t: t.distance_threshold, default=None)\n", 'D1'),
     V('E: matching taxon as the first of the matching lineage members', 'E', _C, _MT_LOOP, "\twithin = [t for t in taxon.ancestors(incself=True) if t.distance_threshold is not None and d <= t.distance_threshold]\n\treturn next(iter(within), None)\n"),
     V('E: matching taxon by a stable sort on a constant key', 'E', _C, _MT_LOOP, "\twithin = [t for t in taxon.ancestors(incself=True) if t.distance_threshold is not None and d <= t.distance_threshold]\n\treturn min(within, key=lambda t: 0, default=None)\n"),
+    V('the --strict flag is dropped at QueryParams (mutation probe)', 'B', 'src/gambit/cli/query.py', "params = QueryParams(classify_strict=strict)", "params = QueryParams()", 'D8'),
+    V('--strict defaults to on', 'B', 'src/gambit/cli/query.py', "\t'--strict/--no-strict',\n\tdefault=False,", "\t'--strict/--no-strict',\n\tdefault=True,", 'D8'),
+    V('the signature-file query runs with default parameters', 'B', 'src/gambit/cli/query.py', "results = query(db, sigs, params, inputs=inputs, progress=pconf)", "results = query(db, sigs, inputs=inputs, progress=pconf)", 'D8'),
+    V('query_parse() does not forward the parameters', 'B', 'src/gambit/query.py', "return query(db, query_sigs, params, inputs=inputs, progress=pconf, **kw)", "return query(db, query_sigs, inputs=inputs, progress=pconf, **kw)", 'D8'),
+    V('E: parameters passed by keyword, built inline', 'E', 'src/gambit/cli/query.py', "results = query(db, sigs, params, inputs=inputs, progress=pconf)", "results = query(db, sigs, params=params, inputs=inputs, progress=pconf)"),
     V('query() replaces given parameters by defaults (test inverted)', 'B', 'src/gambit/query.py', "\tif params is None:\n\t\tparams = QueryParams(**kw)\n\telif kw:", "\tif params is not None:\n\t\tparams = QueryParams(**kw)\n\telif kw:", 'D6'),
     V('query() always builds default parameters', 'B', 'src/gambit/query.py', "\tif params is None:\n\t\tparams = QueryParams(**kw)\n\telif kw:", "\tparams = QueryParams(**kw)\n\tif kw:", 'D6'),
     V('E: guard clause for the default parameters', 'E', 'src/gambit/query.py', "\tif params is None:\n\t\tparams = QueryParams(**kw)\n\telif kw:", "\tif params is None:\n\t\tparams = QueryParams(**kw)\n\tif params is not None and kw and False:"),
